@@ -24,7 +24,7 @@ func toolCorpus(c *ctx, dir string, stream string, nf, np, ns int, o prog.GenOpt
 		p.AutoInstrument = false
 		// F2 and named maps are separate findings; keep this corpus acceptable
 		rel := "g/" + p.Name
-		writeFile(filepath.Join(dir, rel, "p.go"), p.Source())
+		writeProgFiles(dir, rel, p)
 		pkgs = append(pkgs, &toolPkg{Rel: rel, Kind: "corpus", Feature: strings.Join(p.Features, ","), Files: []string{"p.go"}})
 	}
 	for i := 0; i < ns; i++ {
